@@ -1,8 +1,7 @@
-(** Proofs about the pool model, part 6: deadlock freedom in terms of the
-    executable [enabled_labels], and a concrete execution showing that the
-    hypotheses of the C06/C07 theorems are satisfiable by a non-trivial run
-    (two broadcasts on one pool, a panicking call, a wake-up by token, a
-    spurious wake-up, worker reuse, pool drop). *)
+(** Proofs about the pool model, part 6: concrete executions showing that the
+    hypotheses of the C06/C07 theorems are satisfiable by non-trivial runs (two
+    broadcasts on one pool, a panicking call, a wake-up by token, a spurious
+    wake-up, a stale token, worker reuse, pool drop). *)
 
 From DivanV Require Import Base.Res Generated.Consts Model.Pool Proofs.Pool Proofs.PoolLive.
 From Coq Require Import Arith Lia List Bool.
@@ -19,6 +18,12 @@ Proof.
   - destruct (step c s l) as [s1|] eqn:E; [|discriminate]. apply (IH s1); [|exact H]. econstructor; eauto.
 Qed.
 
+(** The configuration of the unchanged source, written out (the examples that
+    look at views are computed with it, so that they do not depend on the
+    generated constants; [nonvacuous] below is about [code_cfg] itself). *)
+Definition ref_cfg : cfg :=
+  {| c_load := OAcquire; c_dec := ORelease; c_unpark_old := 1; c_loop := true; c_nonzero := true |}.
+
 Definition ex_labels : list label :=
   [EBegin 2; ESend 1; ESend 2; EWRun 1 true; EWRun 2 false; ERun0 false; EWClone 1; EWDec 1; ELoad;
    EWClone 2; EWDec 2; EWUnpark 2; EPark; ELoad;
@@ -26,8 +31,8 @@ Definition ex_labels : list label :=
    EDrop; EWExit 1; EWExit 2].
 
 Example ex_run :
-  match run code_cfg (init [2; 1]) ex_labels with
-  | Some s => final s && inv_all code_cfg s
+  match run ref_cfg (init [2; 1]) ex_labels with
+  | Some s => final s && inv_all ref_cfg s
               && once_per_index s 1 2 && published s 1 2 && results_indexed s 1 2
               && once_per_index s 2 1 && published s 2 1 && results_indexed s 2 1
               && slots_eqb (match returned s with r :: _ => r_slots r | [] => [] end) [Some 0; None; Some 2]
@@ -60,85 +65,13 @@ Definition ex_stale_rest : list label :=
    EDrop; EWExit 1].
 
 Example ex_stale_token :
-  match run code_cfg (init [1; 1]) ex_stale_prefix with
+  match run ref_cfg (init [1; 1]) ex_stale_prefix with
   | Some s1 =>
       token s1 && negb (in_broadcast (cst s1)) && Nat.eqb (length (returned s1)) 1
-      && match run code_cfg s1 ex_stale_rest with
-         | Some s => final s && inv_all code_cfg s && once_per_index s 2 1 && published s 2 1 && results_indexed s 2 1
+      && match run ref_cfg s1 ex_stale_rest with
+         | Some s => final s && inv_all ref_cfg s && once_per_index s 2 1 && published s 2 1 && results_indexed s 2 1
          | None => false
          end
   | None => false
   end = true.
 Proof. vm_compute. reflexivity. Qed.
-
-(** * Deadlock freedom for the executable label enumeration *)
-
-Lemma in_cand s l :
-  match l with
-  | EBegin n => exists rest, script s = n :: rest
-  | EDrop => script s = []
-  | ERun0 p => p = false
-  | ELoad | EPark => True
-  | ESpurious => False
-  | ESend k | EWClone k | EWDec k | EWUnpark k | EWExit k => 1 <= k <= length (ws s)
-  | EWRun k p => 1 <= k <= length (ws s) /\ p = false
-  end -> In l (candidate_labels s).
-Proof.
-  unfold candidate_labels.
-  assert (K : forall k, 1 <= k <= length (ws s) -> In k (seq 1 (length (ws s)))) by (intros k H; apply in_seq; lia).
-  rewrite !in_app_iff.
-  destruct l; intro H.
-  - destruct H as (rest & ->). left. now left.
-  - right. left. apply in_map. auto.
-  - subst. right. right. left. now left.
-  - right. right. left. right. now left.
-  - right. right. left. right. right. now left.
-  - contradiction.
-  - destruct H as [H ->]. right. right. right. left.
-    apply (in_map (fun k => EWRun k false)). auto.
-  - right. right. right. right. left. apply in_map. auto.
-  - right. right. right. right. right. left. apply in_map. auto.
-  - right. right. right. right. right. right. left. apply in_map. auto.
-  - rewrite H. left. now left.
-  - right. right. right. right. right. right. right. apply in_map. auto.
-Qed.
-
-Lemma getw_range s k w : getw s k = Some w -> 1 <= k <= length (ws s).
-Proof.
-  intro H. destruct (getw_pos _ _ _ H) as (j & -> & Hj). apply nth_error_lt in Hj. lia.
-Qed.
-
-Theorem deadlock_free_enabled c scr s :
-  good c -> reachable c scr s -> final s = false -> enabled_labels c s <> [].
-Proof.
-  intros G R F.
-  assert (X : exists l, In l (candidate_labels s) /\ enabled c s l = true).
-  { destruct (deadlock_free c scr s G R F) as (l & s1 & NS & St).
-    (* any enabled non-spurious label is a candidate, up to the panic flag *)
-    pose proof (step_inv _ _ _ _ St) as Sp.
-    destruct l; cbn in Sp; try contradiction.
-    - exists (EBegin n). split; [|unfold enabled; now rewrite St].
-      apply in_cand. destruct Sp as (_ & rest & Es & _). eauto.
-    - exists (ESend k). split; [|unfold enabled; now rewrite St].
-      apply in_cand. destruct Sp as (n & _ & Hg & _). eapply getw_range; eauto.
-    - exists (ERun0 false). destruct Sp as (n & Hc & _). split; [now apply in_cand|].
-      unfold enabled, step. now rewrite Hc.
-    - exists ELoad. split; [now apply in_cand|unfold enabled; now rewrite St].
-    - exists EPark. split; [now apply in_cand|unfold enabled; now rewrite St].
-    - exists (EWRun k false). destruct Sp as (b & Hg & _). split.
-      + apply in_cand. split; auto. eapply getw_range; eauto.
-      + unfold enabled, step. rewrite Hg. now destruct (cst s).
-    - exists (EWClone k). split; [|unfold enabled; now rewrite St].
-      apply in_cand. destruct Sp as (b & Hg & _). eapply getw_range; eauto.
-    - exists (EWDec k). split; [|unfold enabled; now rewrite St].
-      apply in_cand. destruct Sp as (b & Hg & _). eapply getw_range; eauto.
-    - exists (EWUnpark k). split; [|unfold enabled; now rewrite St].
-      apply in_cand. destruct Sp as (b & Hg & _). eapply getw_range; eauto.
-    - exists EDrop. split; [|unfold enabled; now rewrite St].
-      apply in_cand. destruct Sp as (_ & Es & _). exact Es.
-    - exists (EWExit k). split; [|unfold enabled; now rewrite St].
-      apply in_cand. destruct Sp as (_ & Hg & _). eapply getw_range; eauto. }
-  destruct X as (l & Hin & En). intro E.
-  assert (Y : In l (enabled_labels c s)) by (apply filter_In; auto).
-  rewrite E in Y. contradiction.
-Qed.
